@@ -279,7 +279,7 @@ func runCheck(o *Options) int {
 	}
 	// lemma closure: bodies, plus all auto lemmas of the involved packages
 	for _, lm := range w.lemmas {
-		if lm.Auto && involved[w.lemmaPkg[lm.Name]] {
+		if lm.Auto && (w.lemmaPkg[lm.Name] == nil || involved[w.lemmaPkg[lm.Name]]) {
 			lemmaSet[lm.Name] = true
 		}
 	}
@@ -306,7 +306,7 @@ func runCheck(o *Options) int {
 		lm := w.lemmas[n]
 		pi := w.lemmaPkg[n]
 		if pi == nil {
-			continue // stdlib axiom
+			pi = w.stdPkg() // lemmas of the shared prelude are proved like any other (axioms are skipped inside)
 		}
 		r := w.verifyLemma(pi, lm)
 		results = append(results, r)
@@ -314,10 +314,12 @@ func runCheck(o *Options) int {
 			jobs = append(jobs, &job{o: ob, g: r.Gen})
 		}
 	}
-	// spec function termination for the involved packages
+	// spec function termination for the involved packages (and the shared prelude)
 	for _, n := range w.specOrder {
 		pi := w.specPkg[n]
-		if pi == nil || !involved[pi] {
+		if pi == nil {
+			pi = w.stdPkg()
+		} else if !involved[pi] {
 			continue
 		}
 		r := w.verifySpec(pi, w.specs[n])
